@@ -78,7 +78,7 @@ fn number_of_p_adic_steps_needed(
     log_norms.push((0..b.nr_columns())
         .map(|j| column_norm(b, j).ln())
         .max_by(|a, b| a.total_cmp(b))
-        .unwrap());
+        .unwrap_or(0.0));
 
     log_norms.sort_by(|a, b| a.total_cmp(b));
 
